@@ -655,6 +655,21 @@ func corpusC10() []*Bundle {
 			casefmt.Op{Doc: 0, Vars: -1, Query: q, Postgres: true}, c10FollowUp(nil))
 		out = append(out, &Bundle{Prop: "C10", Kind: "named", Case: c, Expect: mustJSON(c10Expect{Kind: "named", Query: q}), Tags: []string{"corpus", "kind:named_postgres"}})
 	}
+	// every worker of a PARALLEL join fails (ON is not boolean for any key): several failures land at the same time
+	for _, jt := range []string{"PARALLEL JOIN", "PARALLEL LEFT JOIN", "PARALLEL RIGHT JOIN", "PARALLEL STRAIGHT_JOIN"} {
+		for _, on := range []string{"x.id <= y.id AND x.s", "x.id = y.id AND x.s", "x.id != y.id AND fid(1, TRUE)"} {
+			for si, strat := range []string{"walk", "sync", "pct", "walk", "sync", "pct"} {
+				q := fmt.Sprintf("SELECT * FROM t x %s u y ON %s", jt, on)
+				c := oneClientCase("C10", casefmt.SimConfig{Strategy: strat, Seed: uint64(11 + 7*si), WalkP: 0.5, MapPolicy: []string{"sorted", "reverse", "rotate"}[si%3], ChangePoints: []int64{int64(2 + si), int64(30 + 9*si)}, StepBudget: 2000000}, doc,
+					casefmt.Op{Doc: 0, Vars: -1, Query: q}, c10FollowUp(nil))
+				if strings.Contains(on, "fid(") {
+					c.Stubs.Faults = []casefmt.Fault{{ID: 1, K: 1, Kind: "error"}, {ID: 1, K: 2, Kind: "panic"}, {ID: 1, K: 3, Kind: "error"}}
+					c.Stubs.Lat = []casefmt.LatRule{{ID: 1, Call: -1, Ns: 1000000}}
+				}
+				out = append(out, &Bundle{Prop: "C10", Kind: "named", Case: c, Expect: mustJSON(c10Expect{Kind: "named", Query: q, Race: true}), Tags: []string{"corpus", "kind:named_pjoin_all_fail"}})
+			}
+		}
+	}
 	// background work that fails or panics on some row, per strategy and placement
 	strategies := []string{"ASYNC", "SPIN", "SPINASYNC"}
 	places := []string{"SELECT id, %s.fx(1, a)%s FROM t", "SELECT * FROM (SELECT id, %s.fx(1, a)%s FROM t) d", "WITH c AS (SELECT id, %s.fx(1, a)%s FROM t) SELECT * FROM c",
